@@ -47,7 +47,8 @@ struct Call {
     pause_ms: u64,           // pause before the call
 }
 
-const CMD: &str = "sleep 0.{1}; echo OUT {q} {2} SEL={+2}; echo l2; echo l3; echo l4";
+const CMD: &str = "sleep 0.{1}; echo OUT {q} {2} N={n} SEL={+2}; echo l2; echo l3; echo l4";
+const PV_POINTS: [&str; 6] = ["pv.exit", "pv.recv", "pv.drain", "pv.spawn", "pv.kill", "pv.send"];
 
 fn main() {
     let a = args();
@@ -123,7 +124,8 @@ fn run_case(seed: u64, id: u64, out: &mut Vec<String>) {
     for _ in 0..n_calls {
         let mut force = false;
         match r.below(12) {
-            0..=3 => { cur_item = Some(r.below(4) as usize); }
+            0..=2 => { cur_item = Some(r.below(4) as usize); }
+            3 => { cur_item = Some(if cur_item == Some(0) { 5 } else { 0 }); }   // 5: another entry with the same text as 0
             4 => { cur_item = Some(4); }                       // the text-previewed item
             5 => { cur_item = None; }
             6..=7 => { q_no += 1; }
@@ -138,11 +140,15 @@ fn run_case(seed: u64, id: u64, out: &mut Vec<String>) {
 
     // ---- run ---------------------------------------------------------------------------------------
     let items: Vec<Arc<dyn SkimItem>> = (0..4).map(|k| Arc::new(CmdItem { text: format!("{} it{}", delays[k], k) }) as Arc<dyn SkimItem>)
-        .chain(std::iter::once(Arc::new(TxtItem { text: "000 txt".to_string() }) as Arc<dyn SkimItem>)).collect();
+        .chain(std::iter::once(Arc::new(TxtItem { text: "000 txt".to_string() }) as Arc<dyn SkimItem>))
+        .chain(std::iter::once(Arc::new(CmdItem { text: format!("{} it0", delays[0]) }) as Arc<dyn SkimItem>)).collect();
     let content_cell: Arc<Mutex<Option<Arc<V::SpinLock<Vec<AnsiString<'static>>>>>>> = Arc::new(Mutex::new(None));
     let seen: Arc<Mutex<Vec<String>>> = Arc::new(Mutex::new(Vec::new()));
     let (cc, sn) = (content_cell.clone(), seen.clone());
-    V::trace_start(vec![]);
+    let mut dl = Vec::new();
+    for _ in 0..r.below(3) { dl.push((*r.pick(&PV_POINTS), 1 + r.below(3) as usize, *r.pick(&[5u64, 30, 90]))); }
+    let input = format!("{} delays={:?}", input, dl);
+    V::trace_start(dl);
     let mut pv = Previewer::new(Some(CMD.to_string()), move || {
         if let Some(c) = cc.lock().unwrap().as_ref() {
             let first = c.lock().first().map(|l| l.stripped().to_string()).unwrap_or_default();
@@ -167,7 +173,7 @@ fn run_case(seed: u64, id: u64, out: &mut Vec<String>) {
                 None => "-".to_string(),
                 Some(4) => format!("OUT {} text", c.query),
                 // {+2}: the second field of every selected item, or of the current item when nothing is selected
-                Some(k) => format!("OUT {} it{} SEL={}", c.query, k, if c.sel.is_empty() { format!("it{}", k) } else { c.sel.iter().map(|x| if *x == 4 { "txt".to_string() } else { format!("it{}", x) }).collect::<Vec<_>>().join(" ") }),
+                Some(k) => format!("OUT {} it{} N={} SEL={}", c.query, k % 5, k, if c.sel.is_empty() { format!("it{}", k % 5) } else { c.sel.iter().map(|x| if *x == 4 { "txt".to_string() } else { format!("it{}", x) }).collect::<Vec<_>>().join(" ") }),
             });
         }
     }
@@ -272,11 +278,13 @@ fn run_case(seed: u64, id: u64, out: &mut Vec<String>) {
         let worker_tag = trace.iter().find(|e| e.1 == "pv.recv").map(|e| e.0);
         let sends: Vec<usize> = trace.iter().filter(|e| Some(e.0) == main_tag && e.1 == "pv.send").map(|e| e.2).collect();
         let wev: Vec<(&str, usize)> = trace.iter().filter(|e| Some(e.0) == worker_tag).map(|e| (e.1, e.2)).collect();
+        let wpos: Vec<usize> = trace.iter().enumerate().filter(|(_, e)| Some(e.0) == worker_tag).map(|(i, _)| i).collect();
         // waiter threads in order of first appearance: (exit normal?, called back?)
         let mut wtags: Vec<u64> = Vec::new();
         let mut waiters: Vec<(bool, bool)> = Vec::new();
-        for e in &trace {
-            if e.1 == "pv.exit" { wtags.push(e.0); waiters.push((e.2 == 1, false)); }
+        let mut wexit_pos: Vec<usize> = Vec::new();      // where in the trace each waiter reported its child's end
+        for (gi, e) in trace.iter().enumerate() {
+            if e.1 == "pv.exit" { wtags.push(e.0); waiters.push((e.2 == 1, false)); wexit_pos.push(gi); }
             if e.1 == "pv.cb" { if let Some(k) = wtags.iter().rposition(|t| *t == e.0) { waiters[k].1 = true; } }
         }
         let mut labels: Vec<String> = Vec::new();
@@ -301,8 +309,11 @@ fn run_case(seed: u64, id: u64, out: &mut Vec<String>) {
                     let mut j = i;
                     let mut killed = false;
                     let mut joined = false;
-                    while j < wev.len() && wev[j].0 != "pv.drain" { if wev[j].0 == "pv.kill" { killed = true; } if wev[j].0 == "pv.joined" { joined = true; } j += 1; }
-                    if joined {
+                    let mut joined_at = usize::MAX;
+                    while j < wev.len() && wev[j].0 != "pv.drain" { if wev[j].0 == "pv.kill" { killed = true; } if wev[j].0 == "pv.joined" { joined = true; joined_at = wpos[j]; } j += 1; }
+                    // the join returned: the waiter must have reported before (else PJoin is emitted first and the model refuses it)
+                    let reported = cur_w.map(|k| k < wexit_pos.len() && wexit_pos[k] < joined_at).unwrap_or(true);
+                    if joined && reported {
                         if let Some(k) = cur_w {
                             if !w_finished {
                                 if killed && k < waiters.len() && !waiters[k].0 { labels.push("PKill".into()); }
